@@ -279,6 +279,21 @@ def run_c12(pid, tier):
             if rng.random() < 0.5:
                 steps += [('Z',), ('R', PROG_FULL)]; kinds.append("unchanged")
         scen.append(steps); meta.append(kinds)
+    # each template of a sub-directory deleted (then: broken) in turn and put back: whichever read_dir lists last is among them
+    for mode in ("delete", "break"):
+        trio = [x + ".rs.html" for x in rng.sample(IDENTS, 3)]
+        steps = [('W', 't/top.rs.html', "@()\nT")] + [('W', 't/sub/' + f, "@()\nS%d" % k) for k, f in enumerate(trio)] + [('M', 'st'), ('W', 'st/a.css', 'a{}'), ('R', PROG_FULL)]
+        kinds = ["first"]
+        for k, f in enumerate(trio):
+            steps += [('X', 't/sub/' + f)] if mode == "delete" else [('W', 't/sub/' + f, "@(broken")]
+            steps += [('Z',), ('R', PROG_FULL), ('W', 't/sub/' + f, "@()\nS%d" % k), ('Z',), ('R', PROG_FULL)]; kinds += ["edit", "edit"]
+        scen.append(steps); meta.append(kinds)
+    # a first build that dies at its k-th write with the file cut at 0 / half / len-1 bytes, then a successful one
+    for k in range(6):
+        for cut in (0, -2, -1):
+            scen.append([('W', 't/top.rs.html', "@()\nT"), ('W', 't/sub/in.rs.html', "@()\n<p>inner</p>"), ('M', 'st'), ('W', 'st/a.css', 'a{}'),
+                         # (no sentinel between the crash and the next run: the truncated file keeps its fresh modification time)
+                         ('C', k, cut, PROG_FULL), ('R', PROG_FULL), ('Z',), ('R', PROG_FULL)]); meta.append(["edit", "unchanged"])
     rs = run_keyed(scen)
     # clean builds of the input state before every run: replay the input edits into a fresh directory
     clean_scen = []; clean_ref = []
@@ -425,10 +440,14 @@ def run_c17(pid, tier):
     # stylesheets that pull in other files (@import / @use of partials, nested): every file the compiler opened influenced the css.
     # Implementation against the oracle only (the model takes the compiled css, and what rsass read, as given).
     sscen = []; sneed = []
-    for variant in range(4 if tier == "quick" else 12):
-        main = ['@import "part";\na{b:1}', '@use "part";\na{b:1}', '@import "sub/deep";\n@import "part";\na{b:$c}', '@import "part", "sub/deep";'][variant % 4]
-        files = {"scss/main.scss": main, "scss/_part.scss": "$c: 2;\np{q:$c}", "scss/sub/_deep.scss": "$c: 3;\nd{e:f}", "scss/unused.scss": "u{v:w}"}
-        need = ["scss/main.scss", "scss/_part.scss"] + (["scss/sub/_deep.scss"] if "deep" in main else [])
+    for variant in range(6 if tier == "quick" else 18):
+        main = ['@import "part";\na{b:1}', '@use "part";\na{b:1}', '@import "sub/deep";\n@import "part";\na{b:$c}', '@import "part", "sub/deep";',
+                # imports that leave the directory of the main file, directly and through a partial
+                '@import "../shared/vars";\na{b:$v}', '@import "part";\n@import "../shared/more/mixins";\na{b:1}'][variant % 6]
+        files = {"scss/main.scss": main, "scss/_part.scss": "$c: 2;\np{q:$c}", "scss/sub/_deep.scss": "$c: 3;\nd{e:f}", "scss/unused.scss": "u{v:w}",
+                 "shared/_vars.scss": "$v: 7;", "shared/more/_mixins.scss": "m{n:o}"}
+        need = ["scss/main.scss"] + (["scss/_part.scss"] if '"part"' in main else []) + (["scss/sub/_deep.scss"] if "deep" in main else []) + \
+               (["shared/_vars.scss"] if "vars" in main else []) + (["shared/more/_mixins.scss"] if "mixins" in main else [])
         steps = [('W', p0, c0) for p0, c0 in files.items()] + [('W', 't/x.rs.html', '@()\nx')]
         prog = ([('c', 't')] if variant % 2 else []) + [('s',), ('S', 'scss/main.scss', "", b"?")]
         sscen.append(steps + [('R', prog), ('R', prog)]); sneed.append(need)
